@@ -46,6 +46,16 @@ def tyParamL : Ty → List Bytes
   | .pattern ps => intKey ps.length :: dedupS (sortB (ps.map rxKey))
   | .tref s => if s = unresolvedRef then [] else [strMark ++ s]
   | .semverT _ rs => if rangesEq rs matchAllR then [] else [strMark ++ normStr rs]
+  | .hash k v lo hi =>
+      if (k.isAny ∧ v.isAny) ∧ (lo = 0 ∧ hi = maxInt) then []
+      else if (k.isUnit ∧ v.isUnit) ∧ (lo = 0 ∧ hi = 0) then [intKey 0, intKey 0]
+      else tyKey k :: tyKey v :: (if lo = 0 ∧ hi = maxInt then [] else sizeParamL lo hi)
+  | .like b n => if b.isAny ∧ n.isEmpty then [] else [tyKey b, strMark ++ n]
+  | .callable none => []
+  | .callable (some ts) => (ts.filter (fun t => !t.isUnit)).map tyKey
+  | .runtime rt n p =>
+      if (rt.isEmpty ∧ n.isEmpty) ∧ p.isNone then []
+      else (strMark ++ rt) :: ((if n.isEmpty then [] else [strMark ++ n]) ++ (match p with | none => [] | some p => [rxTyKey p]))
 
 theorem flat_append (a b : List Bytes) : flat (a ++ b) = flat a ++ flat b := by
   induction a with
@@ -59,6 +69,11 @@ theorem tyKeys_eq : ∀ ts : List Ty, tyKeys ts = flat ((ts.map tyKey).map frame
 theorem tyKeyL_eq : ∀ ts : List Ty, tyKeyL ts = ts.map tyKey
   | [] => rfl
   | t :: ts => by simp [tyKeyL, tyKeyL_eq ts]
+
+theorem tyKeysNU_eq : ∀ ts : List Ty, tyKeysNU ts = flat (((ts.filter (fun t => !t.isUnit)).map tyKey).map frame)
+  | [] => rfl
+  | t :: ts => by
+      cases h : t.isUnit <;> simp [tyKeysNU, h, flat, tyKeysNU_eq ts]
 
 theorem frames_eq : ∀ ks : List Bytes, frames ks = flat (ks.map frame)
   | [] => rfl
@@ -101,7 +116,7 @@ theorem tyKey_shape (t : Ty) : tyKey t = [1, 0x74] ++ (frame (strMark ++ t.name)
     split <;> split <;> simp [flat]
   | strVal v => simp [tyKey, tyParamL, Ty.name, ekStr, flat]
   | rx p =>
-    simp only [tyKey, tyParamL, Ty.name, ekStr]
+    simp only [tyKey, rxTyKey, tyParamL, Ty.name, ekStr]
     split <;> simp [flat]
   | pattern ps => simp [tyKey, tyParamL, Ty.name, ekStr, ekInt, unorderedParams, frames_eq, flat]
   | tref s =>
@@ -110,12 +125,31 @@ theorem tyKey_shape (t : Ty) : tyKey t = [1, 0x74] ++ (frame (strMark ++ t.name)
   | semverT o rs =>
     simp only [tyKey, tyParamL, Ty.name, ekStr]
     split <;> simp [flat]
+  | hash k v lo hi =>
+    simp only [tyKey, tyParamL, Ty.name, ekStr, sizeParams, sizeParamL, ekInt, ekDefault]
+    split
+    · simp [flat]
+    · split
+      · simp [flat]
+      · split <;> (try split) <;> simp [flat]
+  | like b n =>
+    simp only [tyKey, tyParamL, Ty.name, ekStr]
+    split <;> simp [flat]
+  | callable ts =>
+    cases ts with
+    | none => simp [tyKey, tyParamL, Ty.name, ekStr, flat]
+    | some ts => simp [tyKey, tyParamL, Ty.name, ekStr, tyKeysNU_eq]
+  | runtime rt n p =>
+    simp only [tyKey, tyParamL, Ty.name, ekStr]
+    split
+    · simp [flat]
+    · cases p <;> (split <;> simp [flat])
 
 /-! ### names: which constructors share a name -/
 
 inductive NameTag where
   | any | undef | str | int | flt | enum | arr | var | tup | opt | typ
-  | nul (k : NulK) | bool | coll | un (k : UnK) | rx | pattern | tref | semver
+  | nul (k : NulK) | bool | coll | un (k : UnK) | rx | pattern | tref | semver | hash | like | callable | runtime
   deriving DecidableEq
 
 def nameTag : Ty → NameTag
@@ -123,7 +157,7 @@ def nameTag : Ty → NameTag
   | .arr _ _ _ => .arr | .var _ => .var | .tup _ _ => .tup | .opt _ => .opt | .typ _ => .typ
   | .nul k => .nul k | .bool _ => .bool | .coll _ _ => .coll | .un k _ => .un k
   | .strSize _ _ => .str | .strVal _ => .str | .rx _ => .rx | .pattern _ => .pattern | .tref _ => .tref
-  | .semverT _ _ => .semver
+  | .semverT _ _ => .semver | .hash _ _ _ _ => .hash | .like _ _ => .like | .callable _ => .callable | .runtime _ _ _ => .runtime
 
 def tagName : NameTag → Bytes
   | .any => Ty.any.name | .undef => Ty.undef.name | .str => Ty.str.name | .int => (Ty.int 0 0).name | .flt => (Ty.flt 0 0).name
@@ -131,6 +165,8 @@ def tagName : NameTag → Bytes
   | .opt => (Ty.opt .any).name | .typ => (Ty.typ .any).name | .nul k => (Ty.nul k).name | .bool => (Ty.bool none).name
   | .coll => (Ty.coll 0 0).name | .un k => (Ty.un k .any).name | .rx => (Ty.rx []).name | .pattern => (Ty.pattern []).name
   | .tref => (Ty.tref []).name | .semver => (Ty.semverT [] []).name
+  | .hash => (Ty.hash .any .any 0 0).name | .like => (Ty.like .any []).name | .callable => (Ty.callable none).name
+  | .runtime => (Ty.runtime [] [] none).name
 
 theorem name_tag (t : Ty) : t.name = tagName (nameTag t) := by
   cases t with
@@ -140,6 +176,7 @@ theorem name_tag (t : Ty) : t.name = tagName (nameTag t) := by
 
 def allTags : List NameTag :=
   [.any, .undef, .str, .int, .flt, .enum, .arr, .var, .tup, .opt, .typ, .bool, .coll, .rx, .pattern, .tref, .semver,
+   .hash, .like, .callable, .runtime,
    .nul .dflt, .nul .unit, .nul .scalar, .nul .scalarData, .nul .numeric, .nul .binary, .nul .data, .nul .richData, .nul .semverRange,
    .un .notUndef, .un .sensitive, .un .iterable, .un .iterator]
 
@@ -247,7 +284,7 @@ def IsTyKey (a : Bytes) : Prop := ∃ r, a = 1 :: 0x74 :: r
 def IsStrKey (a : Bytes) : Prop := ∃ r, a = 1 :: 0x73 :: r
 
 theorem tyKey_hd (t : Ty) : IsTyKey (tyKey t) := by
-  cases t <;> simp [tyKey, IsTyKey]
+  rw [tyKey_shape t]; exact ⟨_, rfl⟩
 
 theorem not_isTyKey_size {lo hi : Int} : ∀ s ∈ sizeParamL lo hi, ¬ IsTyKey s := by
   intro s hs
@@ -465,6 +502,128 @@ theorem patternParam_iff {ps qs : List Bytes} (ha : ps.length ≤ 92233720368547
     · obtain ⟨p, hp, rfl⟩ := List.mem_map.mp hx
       exact List.mem_map_of_mem (h1 p hp)
 
+theorem tyEq_isAny {a b : Ty} (h : tyEq a b = true) : a.isAny = b.isAny := by
+  cases ha : a.isAny
+  · cases hb : b.isAny
+    · rfl
+    · rw [isAny_eq hb, tyEq_any_right, ha] at h; cases h
+  · rw [isAny_eq ha, tyEq_any_left] at h; rw [h]
+
+theorem tyEq_isUnit {a b : Ty} (h : tyEq a b = true) : a.isUnit = b.isUnit := by
+  cases ha : a.isUnit
+  · cases hb : b.isUnit
+    · rfl
+    · rw [isUnit_eq hb, tyEq_unit_right, ha] at h; cases h
+  · rw [isUnit_eq ha, tyEq_unit_left] at h; rw [h]
+
+theorem intKey_ne_tyKey (i : Int) (t : Ty) : intKey i ≠ tyKey t := by
+  obtain ⟨r, hr⟩ := tyKey_hd t
+  rw [hr]; simp [intKey]
+
+theorem rxTyKey_eq (p : Bytes) : rxTyKey p = tyKey (.rx p) := by simp [tyKey]
+
+theorem rxTyKey_inj {p q : Bytes} : rxTyKey p = rxTyKey q ↔ p = q := by
+  rw [rxTyKey_eq, rxTyKey_eq, tyKey_eq_iff]
+  cases p <;> cases q <;> simp [Ty.name, tyParamL, rxKey]
+
+theorem strMark_ne_rxTyKey (v p : Bytes) : strMark ++ v ≠ rxTyKey p := by
+  rw [rxTyKey_eq]; exact strMark_ne_tyKey v _
+
+/-- the parameters of a Hash type decide `Equals` -/
+theorem hashParam_iff {k v k' v' : Ty} {lo hi lo' hi' : Int} (h1 : IntOk lo) (h2 : IntOk hi) (h3 : IntOk lo') (h4 : IntOk hi')
+    (ihk : tyKey k = tyKey k' ↔ tyEq k k' = true) (ihv : tyKey v = tyKey v' ↔ tyEq v v' = true) :
+    tyParamL (.hash k v lo hi) = tyParamL (.hash k' v' lo' hi') ↔
+      ((lo = lo' ∧ hi = hi') ∧ tyEq k k' = true) ∧ tyEq v v' = true := by
+  constructor
+  · intro h
+    simp only [tyParamL] at h
+    have gen : ∀ {S S' : List Bytes}, tyKey k :: tyKey v :: S = tyKey k' :: tyKey v' :: S' →
+        tyEq k k' = true ∧ tyEq v v' = true ∧ S = S' := by
+      intro S S' e
+      simp only [List.cons.injEq] at e
+      exact ⟨ihk.mp e.1, ihv.mp e.2.1, e.2.2⟩
+    by_cases d : (k.isAny ∧ v.isAny) ∧ (lo = 0 ∧ hi = maxInt)
+    · by_cases d' : (k'.isAny ∧ v'.isAny) ∧ (lo' = 0 ∧ hi' = maxInt)
+      · obtain ⟨⟨a1, a2⟩, e1, e2⟩ := d
+        obtain ⟨⟨b1, b2⟩, f1, f2⟩ := d'
+        rw [isAny_eq a1, isAny_eq a2, isAny_eq b1, isAny_eq b2, e1, e2, f1, f2]
+        simp [tyEq]
+      · rw [if_pos d, if_neg d'] at h
+        split at h <;> simp at h
+    · rw [if_neg d] at h
+      by_cases e : (k.isUnit ∧ v.isUnit) ∧ (lo = 0 ∧ hi = 0)
+      · rw [if_pos e] at h
+        by_cases d' : (k'.isAny ∧ v'.isAny) ∧ (lo' = 0 ∧ hi' = maxInt)
+        · rw [if_pos d'] at h; simp at h
+        · rw [if_neg d'] at h
+          by_cases e' : (k'.isUnit ∧ v'.isUnit) ∧ (lo' = 0 ∧ hi' = 0)
+          · obtain ⟨⟨a1, a2⟩, e1, e2⟩ := e
+            obtain ⟨⟨b1, b2⟩, f1, f2⟩ := e'
+            rw [isUnit_eq a1, isUnit_eq a2, isUnit_eq b1, isUnit_eq b2, e1, e2, f1, f2]
+            simp [tyEq]
+          · rw [if_neg e'] at h
+            simp only [List.cons.injEq] at h
+            exact absurd h.1 (intKey_ne_tyKey 0 k')
+      · rw [if_neg e] at h
+        by_cases d' : (k'.isAny ∧ v'.isAny) ∧ (lo' = 0 ∧ hi' = maxInt)
+        · rw [if_pos d'] at h; simp at h
+        · rw [if_neg d'] at h
+          by_cases e' : (k'.isUnit ∧ v'.isUnit) ∧ (lo' = 0 ∧ hi' = 0)
+          · rw [if_pos e'] at h
+            simp only [List.cons.injEq] at h
+            exact absurd h.1.symm (intKey_ne_tyKey 0 k)
+          · rw [if_neg e'] at h
+            obtain ⟨g1, g2, g3⟩ := gen h
+            exact ⟨⟨(sizeOptL_iff h1 h2 h3 h4).mp g3, g1⟩, g2⟩
+  · rintro ⟨⟨⟨rfl, rfl⟩, hk⟩, hv⟩
+    simp only [tyParamL, tyEq_isAny hk, tyEq_isAny hv, tyEq_isUnit hk, tyEq_isUnit hv, ihk.mpr hk, ihv.mpr hv]
+
+theorem likeParam_iff {b b' : Ty} {n n' : Bytes} (ih : tyKey b = tyKey b' ↔ tyEq b b' = true) :
+    tyParamL (.like b n) = tyParamL (.like b' n') ↔ n = n' ∧ tyEq b b' = true := by
+  constructor
+  · intro h
+    simp only [tyParamL] at h
+    by_cases d : b.isAny ∧ n.isEmpty
+    · by_cases d' : b'.isAny ∧ n'.isEmpty
+      · obtain ⟨a1, a2⟩ := d
+        obtain ⟨b1, b2⟩ := d'
+        rw [isAny_eq a1, isAny_eq b1, List.isEmpty_iff.mp a2, List.isEmpty_iff.mp b2]
+        simp [tyEq]
+      · rw [if_pos d, if_neg d'] at h; simp at h
+    · rw [if_neg d] at h
+      by_cases d' : b'.isAny ∧ n'.isEmpty
+      · rw [if_pos d'] at h; simp at h
+      · rw [if_neg d'] at h
+        simp only [List.cons.injEq, List.append_cancel_left_eq, and_true] at h
+        exact ⟨h.2, ih.mp h.1⟩
+  · rintro ⟨rfl, hb⟩
+    simp only [tyParamL, tyEq_isAny hb, ih.mpr hb]
+
+theorem runtimeParam_iff {rt n rt' n' : Bytes} {p p' : Option Bytes} :
+    tyParamL (.runtime rt n p) = tyParamL (.runtime rt' n' p') ↔ (rt = rt' ∧ n = n') ∧ p = p' := by
+  constructor
+  · intro h
+    simp only [tyParamL] at h
+    by_cases d : (rt.isEmpty ∧ n.isEmpty) ∧ p.isNone
+    · by_cases d' : (rt'.isEmpty ∧ n'.isEmpty) ∧ p'.isNone
+      · obtain ⟨⟨a1, a2⟩, a3⟩ := d
+        obtain ⟨⟨b1, b2⟩, b3⟩ := d'
+        rw [List.isEmpty_iff.mp a1, List.isEmpty_iff.mp a2, List.isEmpty_iff.mp b1, List.isEmpty_iff.mp b2,
+          Option.isNone_iff_eq_none.mp a3, Option.isNone_iff_eq_none.mp b3]
+        simp
+      · rw [if_pos d, if_neg d'] at h; simp at h
+    · rw [if_neg d] at h
+      by_cases d' : (rt'.isEmpty ∧ n'.isEmpty) ∧ p'.isNone
+      · rw [if_pos d'] at h; simp at h
+      · rw [if_neg d'] at h
+        simp only [List.cons.injEq, List.append_cancel_left_eq] at h
+        obtain ⟨hrt, hrest⟩ := h
+        subst hrt
+        cases p <;> cases p' <;> by_cases hn : n = [] <;> by_cases hn' : n' = [] <;>
+          simp [hn, hn', strMark_ne_rxTyKey, (strMark_ne_rxTyKey _ _).symm, rxTyKey_inj] at hrest ⊢ <;>
+          first | exact hrest | (obtain ⟨e1, e2⟩ := hrest; exact ⟨e1, e2⟩) | skip
+  · rintro ⟨⟨rfl, rfl⟩, rfl⟩; rfl
+
 mutual
 theorem tyKey_iff : ∀ a b : Ty, TyWF a = true → TyWF b = true → (tyKey a = tyKey b ↔ tyEq a b = true)
   | .any, b, _, _ => by rw [tyKey_eq_iff, name_eq_iff]; cases b <;> simp [nameTag, tyEq, tyParamL]
@@ -665,6 +824,36 @@ theorem tyKey_iff : ∀ a b : Ty, TyWF a = true → TyWF b = true → (tyKey a =
           · simp only [h, h', if_false, List.cons.injEq, and_true, List.append_cancel_left_eq]
             exact ⟨fun e => normStr_inj ha hb e, fun e => by rw [e]⟩
       | _ => simp [nameTag, tyEq, tyParamL]
+  | .hash k v lo hi, b, ha, hb => by
+      rw [tyKey_eq_iff, name_eq_iff]
+      cases b with
+      | hash k' v' lo' hi' =>
+        simp only [TyWF, Bool.and_eq_true, decide_eq_true_eq] at ha hb
+        simp only [nameTag, true_and, tyEq, Bool.and_eq_true, beq_iff_eq]
+        exact hashParam_iff ha.2.1 ha.2.2 hb.2.1 hb.2.2 (tyKey_iff k k' ha.1.1 hb.1.1) (tyKey_iff v v' ha.1.2 hb.1.2)
+      | _ => simp [nameTag, tyEq]
+  | .like t n, b, ha, hb => by
+      rw [tyKey_eq_iff, name_eq_iff]
+      cases b with
+      | like t' n' =>
+        simp only [TyWF] at ha hb
+        simp only [nameTag, true_and, tyEq, Bool.and_eq_true, beq_iff_eq]
+        exact likeParam_iff (tyKey_iff t t' ha hb)
+      | _ => simp [nameTag, tyEq]
+  | .callable ts, b, ha, hb => by
+      rw [tyKey_eq_iff, name_eq_iff]
+      cases b with
+      | callable us =>
+        cases ts <;> cases us <;> simp [TyWF] at ha hb
+        simp [nameTag, tyEq, tyParamL]
+      | _ => simp [nameTag, tyEq]
+  | .runtime rt n p, b, _, _ => by
+      rw [tyKey_eq_iff, name_eq_iff]
+      cases b with
+      | runtime rt' n' p' =>
+        simp only [nameTag, true_and, tyEq, Bool.and_eq_true, beq_iff_eq]
+        exact runtimeParam_iff
+      | _ => simp [nameTag, tyEq]
 theorem tyKey_iff_L : ∀ ts us : List Ty, TyWFL ts = true → TyWFL us = true →
     (ts.map tyKey = us.map tyKey ↔ ts.length = us.length ∧ tyEqL ts us = true)
   | [], [], _, _ => by simp [tyEqL]
